@@ -802,12 +802,14 @@ def case_giant_residue(rng, ctx):
     """One residue with more atoms than 16 bits count (a nanoparticle / coarse-grained sheet stored as one component):
     intra-residue bonds are written by atom name and found again by position inside the residue."""
     n = int(rng.choice([32767, 32769, 33000, 40000]))
+    if (ctx.index // 250) % 2 == 1 and n == 32767:
+        n = 40000          # (atom positions only pass 15 bits beyond 32768 atoms)
     a = struc.AtomArray(n)
     a.coord = rng.uniform(-90, 90, size=(n, 3)).astype(np.float32)
     a.chain_id[:] = "A"
     a.element[:] = "C"
     lo = max(n - 7300, 0)
-    if ctx.index % 1000 == 750:
+    if (ctx.index // 250) % 2 == 1:
         # the same number of atoms in two-atom residues, a few dozen bonds between residues (written as struct_conn rows
         # and matched against all atoms when read)
         a.res_id = np.arange(n) // 2 + 1
@@ -897,7 +899,7 @@ def run_case(stratum, rng, ctx):
     if stratum == "roundtrip":
         return case_roundtrip(rng, ctx, False)
     if stratum == "roundtrip_bonds":
-        if ctx.index % 500 == 250:
+        if ctx.index % 250 == 125:
             return case_giant_residue(rng, ctx)
         return case_roundtrip(rng, ctx, True)
     if stratum == "model_select":
